@@ -262,8 +262,20 @@ NameRelShapes ==
        mk("alone", <<fb>>),
        mk("rel", <<Msg("Bar", <<Fld("Num", 1, "int32")>>, <<>>), fb, Msg("Foo", <<Fld("Flag", 1, "bool")>>, <<>>)>>)>>
 
+\* messages DECLARED INSIDE others: the selected type's nested message alone, and next to an unrelated, unselected message
+\* declared in front of it whose own nested message has the same simple name (.tp.Outer.Leaf / .tp.Root.Leaf: the full
+\* names and the Go names do not clash)
+NestedDesc(msgs, kvs) == [pkg |-> "tp", msgs |-> msgs, deps |-> <<>>, nested |-> kvs]
+NestedShapes ==
+  LET leaf == Msg("Leaf", <<Fld("Str", 1, "string"), Fld("Num", 2, "int32")>>, <<>>)
+      root == Msg("Root", <<Fld("Str", 1, "string"), MsgF("Sub", 2, "Leaf"), Rep(MsgF("Subs", 3, "Leaf"))>>, <<>>)
+      mk(id, d) == [Shape("c12.nest." \o id, d, BaseCfg) EXCEPT !.group = "c12.nest", !.gchecks = <<GCheck("fn", "C12", "C12.text_independent")>>]
+  IN <<mk("alone", NestedDesc(<<leaf, root>>, <<KV("Leaf", "Root")>>)),
+       mk("clash", NestedDesc(<<Msg("Extra", <<Fld("Flag", 1, "bool")>>, <<>>), Msg("Outer", <<Fld("Num", 1, "int32")>>, <<>>), leaf, root>>,
+                              <<KV("Extra", "Outer:Leaf"), KV("Leaf", "Root")>>))>>
+
 GenSelectShapes(long) ==
-  CrossFileShapes \o EmptyUseShapes \o NameRelShapes \o
+  CrossFileShapes \o EmptyUseShapes \o NameRelShapes \o NestedShapes \o
   IF long THEN SelShapesOf(FALSE, {"none", "msg", "dep", "rev"}) \o SelShapesOf(TRUE, {"none", "msg", "dep", "rev"})
   ELSE SelShapesOf(FALSE, {"none", "dep", "rev"}) \o SelShapesOf(TRUE, {"msg", "rev"})
 
